@@ -11,6 +11,16 @@ Emitted (plain Lean data, nothing cached, rewritten only when the content change
   * `antiImpl`  whether some anti-pattern of i is found in pattern j by the code.
 `Proofs/C07Default.lean` proves by kernel evaluation that the matcher MODEL reproduces `embImpl` /
 `antiImpl`, that the model's key reproduces `keysImpl`, and that the hypotheses of `C07.hasse` hold.
+
+Second file, lean/FGVerif/Generated/C07Anti.lean: the corpus lists WITH anti-patterns
+(corpus/C07/lists.json, entries with "cfgs" and "kernel_table": true), on which an anti-pattern really excludes a would-be
+descendant (the default list's three anti-patterns exclude no listed group, so `antiImpl` above has
+no `true` entry).  Emitted: the lists (patterns and anti-patterns parsed by the real parser, anti-patterns
+in the order the constructor stores them), `subImpl` = the answer of the REAL
+`is_subgroup(cfg_i, cfg_j, mapper)` (0 False, 1 True, 2 AssertionError), the real matcher's `embImpl` /
+`antiImpl`, and `keysImpl`.  `Proofs/C07Anti.lean` proves by kernel evaluation that the MODEL's
+`isSubgroupE` (veto branch included) reproduces `subImpl`, that the matcher's answers are the true
+embeddings, and the hypotheses of `C07.hasse` for the lists on which the vetoed relation is an order.
 """
 import os
 import sys
@@ -89,9 +99,107 @@ def flat_key(k):
     return out
 
 
+def write_if_changed(name, content):
+    os.makedirs(OUT, exist_ok=True)
+    path = os.path.join(OUT, name)
+    old = open(path).read() if os.path.exists(path) else None
+    if old != content:
+        with open(path, "w") as f:
+            f.write(content)
+        print("gen_tables_c07: rewrote", path)
+    else:
+        print("gen_tables_c07: %s unchanged" % name)
+
+
+def lbool(x):
+    return "true" if x else "false"
+
+
+def anti_corpus():
+    """the corpus lists that carry anti-patterns -> list of lists of config dicts"""
+    import json
+    p = os.path.join(VERIF, "corpus", "C07", "lists.json")
+    out = []
+    for e in json.load(open(p)):
+        if "cfgs" in e and e.get("kernel_table") and any("anti_pattern" in c for c in e["cfgs"]):
+            out.append([dict(c, name=c.get("name", "g%d" % i)) for i, c in enumerate(e["cfgs"])])
+    return out
+
+
+def main_anti():
+    import fgutils.fgconfig as FC
+    from fgutils.algorithm.subgraph import map_subgraph_to_graph
+    from fgutils.permutation import PermutationMapper
+    mapper = PermutationMapper(wildcard="R", ignore_case=True)     # the mapper the harness builds the trees with
+    lines = ["/- GENERATED by harness/gen_tables_c07.py from /repo's working tree and corpus/C07/lists.json. Do not edit. -/",
+             "import FGVerif.Model.C07", "namespace Gen.C07Anti", "",
+             "def mapper : Perm.Mapper := { wildcard := some \"R\", ignoreCase := true, canMapToNothing := [] }", ""]
+    subs, embs, antis, keys, names = [], [], [], [], []
+    for k, dicts in enumerate(anti_corpus()):
+        cfgs = [FC.FGConfig(**d) for d in dicts]
+        n = len(cfgs)
+        row_names = []
+        for i, c in enumerate(cfgs):
+            lines.append("def l%dc%d : _root_.C07.FGConfig := _root_.C07.FGConfig.mk %s %s\n  (%s)\n  [%s]" % (
+                k, i, lstr(c.name), lstr(c.pattern_str), lgraph(c.pattern), ", ".join(lgraph(a) for a in c.anti_pattern)))
+            row_names.append("l%dc%d" % (k, i))
+        lines.append("def l%d : List _root_.C07.FGConfig := [%s]" % (k, ", ".join(row_names)))
+        names.append("l%d" % k)
+        sub = [[0] * n for _ in range(n)]
+        emb = [[False] * n for _ in range(n)]
+        anti = [[False] * n for _ in range(n)]
+        for i in range(n):
+            for j in range(n):
+                try:
+                    emb[i][j] = bool(map_subgraph_to_graph(cfgs[j].pattern, cfgs[i].pattern, mapper))
+                except Exception:
+                    emb[i][j] = False
+                try:
+                    anti[i][j] = any(bool(map_subgraph_to_graph(cfgs[j].pattern, a, mapper)) for a in cfgs[i].anti_pattern)
+                except Exception:
+                    anti[i][j] = False
+                if i == j:
+                    continue
+                try:
+                    sub[i][j] = 1 if FC.is_subgroup(cfgs[i], cfgs[j], mapper) else 0
+                except AssertionError:
+                    sub[i][j] = 2
+                except Exception:
+                    sub[i][j] = 3
+        subs.append(sub)
+        embs.append(emb)
+        antis.append(anti)
+        ks = []
+        for c in cfgs:
+            try:
+                ks.append(flat_key(FC.FGTreeNode(c).order_id()))
+            except Exception:
+                ks.append([])
+        keys.append(ks)
+    lines.append("")
+    lines.append("/-- the corpus lists with anti-patterns, as `FGConfig(**dict)` builds them -/")
+    lines.append("def lists : List (List _root_.C07.FGConfig) := [%s]" % ", ".join(names))
+
+    def tab3(t, f):
+        return "[\n  %s]" % ",\n  ".join("[" + ", ".join("[" + ", ".join(f(x) for x in row) + "]" for row in m) + "]" for m in t)
+    lines.append("/-- the REAL `is_subgroup(cfg_i, cfg_j, mapper)`: 0 = False, 1 = True, 2 = AssertionError (3 = other exception);")
+    lines.append("    list k, row i, column j; the diagonal is not asked (0) -/")
+    lines.append("def subImpl : List (List (List Nat)) := " + tab3(subs, str))
+    lines.append("/-- the real matcher: pattern i found in pattern j -/")
+    lines.append("def embImpl : List (List (List Bool)) := " + tab3(embs, lbool))
+    lines.append("/-- the real matcher: some anti-pattern of i found in pattern j -/")
+    lines.append("def antiImpl : List (List (List Bool)) := " + tab3(antis, lbool))
+    lines.append("/-- `FGTreeNode(cfg).order_id()` (strings as code points) -/")
+    lines.append("def keysImpl : List (List (List Nat)) := " + tab3(keys, str))
+    lines.append("")
+    lines.append("end Gen.C07Anti")
+    write_if_changed("C07Anti.lean", "\n".join(lines) + "\n")
+
+
 def main():
     import fgutils.fgconfig as FC
     from fgutils.algorithm.subgraph import map_subgraph_to_graph
+    main_anti()
     prov = FC.FGConfigProvider()
     cfgs = prov.config_list
     mapper = prov.mapper
